@@ -21,6 +21,7 @@ mod props_fault;
 mod props_mclmc;
 mod props_posterior;
 mod props_sched;
+mod props_stationary;
 mod refnuts;
 mod props_sched_adapt;
 mod sched;
